@@ -1,7 +1,13 @@
 import AC.Drv.C02
+import AC.Drv.C08
 import AC.Drv.C09
 import AC.Drv.C10
 import AC.Drv.C11
+import AC.Drv.C12
+import AC.Drv.C13
+import AC.Drv.C18
+import AC.Drv.C19
+import AC.Drv.C20
 open AC.Drv
 
 def dispatch (line : String) : String :=
@@ -10,9 +16,15 @@ def dispatch (line : String) : String :=
   | op :: f =>
     let r := match op with
       | "c02" => handleC02 f
+      | "c08" => handleC08 f
       | "c09" => handleC09 f
       | "c10" => handleC10 f
       | "c11" => handleC11 f
+      | "c12" => handleC12 f
+      | "c13" => handleC13 f
+      | "c19" => handleC19 f
+      | "c18" => handleC18 f
+      | "c20" => handleC20 f
       | _ => bad s!"unknown-op:{op}"
     r.render
 
